@@ -33,3 +33,15 @@ check("C08", "exploration",
       [native("quick")],
       [native("thorough"), miri(shards=8)],
       minima={"int_roundtrip": {"quick": 1 << 20, "thorough": 1 << 32}})
+
+NET_MINIMA = {"resend_chunks_on_wire": 100, "duplicate_deliveries": 100, "request_resend_on_wire": 100, "ready_events": 30}
+
+check("C01", "fault_enumeration",
+      [native("quick")],
+      [native("thorough"), miri(shards=4)],
+      minima=dict(NET_MINIMA, seq_wraps={"quick": 1, "thorough": 16}))
+
+check("C04", "exploration",
+      [native("quick")],
+      [native("thorough"), native("thorough", profile="release", name="native-release"), miri(shards=4)],
+      minima=dict(NET_MINIMA, too_long_refused=100, compressed_on_wire=100, uncompressed_chunk_packets=100))
